@@ -14,8 +14,11 @@ LEVEL_TEXT = ('Every registered built-in transformation (71 entry points with th
               'apart from the listed known findings.')
 LEVEL_NOTE = ('Trusted: gfortran -fsyntax-only with implicit none as the compiler; the harness list of intrinsic names. '
               'Exceptions raised by a transformation are counted, not judged (no "after" state exists). Transformations '
-              'whose documented conventions the workload cannot satisfy (SCC family, offload, transpile, block-index, '
-              'type-bound calls, pool allocator with check of stack size) are excluded by precondition.')
+              'whose documented conventions the workload cannot satisfy are not registered (SCC family, data offload, '
+              'field API, transpile, block-index, loop blocking, type-bound calls) or excluded by precondition per program '
+              '(kernel modules that define derived types for the renaming / duplicating transformations, function kernels '
+              'for hoisting and the pool allocator, range-shaped arrays for flatten_arrays without normalisation). '
+              'Known mechanisms that would fire in most programs run only in 1/8 of the cases (gates in vlib/wflab.py).')
 RULE = ('Case = ProgGen program (kernel kern in module kmod, helpers, internal procedures, derived type) decorated with '
         'pragmas / sequence association / dead branches / imported constants / duplicate arguments ..., and one slice '
         'of the registry (6 in-process slices, 2 scheduler slices). Each entry of the slice is applied with up to 2 '
@@ -62,9 +65,14 @@ def run_case(idx, rng, tier, ctx):
     slot = idx % NSLOT
     gates = gates_for(idx)
     entries, is_sched = slice_entries(slot)
+    # the program is generated for the slice: decorations / helpers the entries of the slice act on are turned on
+    gates.update(wflab.slice_requirements(entries, rng))
     if is_sched:
-        # kernels of several scheduler transformations must be subroutines; programs are smaller (3 files are parsed)
-        gates['pflags'] = {'functions': rng.random() < 0.5, 'max_stmts': rng.choice([4, 6])}
+        # programs are smaller (several files are parsed by the scheduler for every application)
+        gates['pflags'].setdefault('functions', rng.random() < 0.5)
+        gates['pflags']['max_stmts'] = rng.choice([4, 6])
+    if gates['unroll_neg']:
+        gates['dflags']['unroll'] = True
     wc = wflab.make_case(rng, idx, gates)
     limit = 2 if tier == 'quick' else 4
     counters, feats = {}, set(wc.features)
